@@ -359,3 +359,38 @@ Lemma reachable_inv dgs acc :
   exists s' acc', run_dgs fixed init dgs acc = (acc', Some s') /\ Inv s' /\ w2_fresh s'
     /\ a_outs acc' = repeat OOk (length dgs) ++ a_outs acc.
 Proof. intros H. exact (run_dgs_ok dgs init acc Inv_init w2_fresh_init H). Qed.
+
+(* ---- the loops cost exactly their trip count (what the window fixes bound) ---- *)
+Lemma iadd_ok a b : i64_min <= a + b <= i64_max -> iadd a b = ORet (a + b) 0 0.
+Proof.
+  intros H. unfold iadd, in_i64.
+  destruct (Z.leb_spec i64_min (a + b)), (Z.leb_spec (a + b) i64_max); try lia. reflexivity.
+Qed.
+
+Lemma missing_loop_cost ch n : forall s,
+  i64_min <= s -> s + Z.of_nat n <= i64_max ->
+  exists l a, missing_loop n s ch = ORet l (Z.of_nat n) a.
+Proof.
+  induction n as [|n IH]; intros s H1 H2.
+  - exists [], 0. reflexivity.
+  - destruct (IH (s + 1) ltac:(lia) ltac:(lia)) as (l & a & E).
+    cbn [missing_loop]. rewrite iadd_ok by lia. unfold bind, tick, alloc, ret. rewrite E.
+    destruct (mem s ch); cbv beta iota; eexists _, _; f_equal; lia.
+Qed.
+
+Lemma insert_range_cost n : forall from ch,
+  i64_min <= from -> from + Z.of_nat n <= i64_max ->
+  exists ch', insert_range n from ch = ORet ch' (Z.of_nat n) (ENTRY * Z.of_nat n).
+Proof.
+  induction n as [|n IH]; intros from ch H1 H2.
+  - exists ch. unfold insert_range, ret, ENTRY. f_equal.
+  - destruct (IH (from + 1) (insert from ch) ltac:(lia) ltac:(lia)) as (ch' & E).
+    cbn [insert_range]. rewrite iadd_ok by lia. unfold bind, tick, alloc. rewrite E.
+    cbv beta iota. eexists. f_equal; unfold ENTRY; lia.
+Qed.
+
+Lemma loop_cost_exact n s ch :
+  i64_min <= s -> s + Z.of_nat n <= i64_max ->
+  (exists l a, missing_loop n s ch = ORet l (Z.of_nat n) a)
+  /\ (exists ch', insert_range n s ch = ORet ch' (Z.of_nat n) (ENTRY * Z.of_nat n)).
+Proof. intros H1 H2. split; [now apply missing_loop_cost|now apply insert_range_cost]. Qed.
